@@ -251,6 +251,8 @@ def version_key():
 
 
 ALPHABET = "/:.XNLHAVCPRUISMTEDGFOWYBQZacdeilmnrsux0123456789 \n\t-_,;é☃{}%\\$\"'"      # incl. format-string metacharacters
+# lone surrogates are ordinary str values too (json.loads of a truncated pair, os.fsdecode of undecodable bytes): no codec encodes them
+ALPHABET += "\ud800\udbff\udc00\udc7f\udc80\udcff\udfff\ud83d"
 _CONF = None
 
 
